@@ -139,6 +139,19 @@ static int pre(const char *call, const char *path, long *myseq) {
     return 0;
 }
 
+/* Paths are logged with whitespace, control bytes and '%' percent-escaped, so
+   that log lines stay space-separated. */
+static const char *E(const char *p) {
+    static __thread char ring[6][4400]; static __thread int idx = 0;
+    if (!p) return "?";
+    char *o = ring[idx = (idx + 1) % 6]; size_t k = 0;
+    for (const unsigned char *c = (const unsigned char *)p; *c && k < 4390; c++) {
+        if (*c <= 0x20 || *c == '%' || *c == 0x7f) { k += snprintf(o + k, 4, "%%%02x", *c); }
+        else o[k++] = (char)*c;
+    }
+    o[k] = 0; return o;
+}
+
 static void logf_(long n, const char *fmt, ...) {
     if (logfd < 0) return;
     char b[9000];
@@ -178,7 +191,7 @@ static int do_open(const char *name, int dirfd, const char *path, int flags, mod
     const char *kind = ((flags & O_TMPFILE) == O_TMPFILE) ? "opentmp" : (flags & O_CREAT) ? "create" : "open";
     const char *acc = (flags & O_ACCMODE) == O_RDONLY ? "RDONLY" : (flags & O_ACCMODE) == O_WRONLY ? "WRONLY" : "RDWR";
     if (r >= 0) fdtab_set(r, path);
-    logf_(n, "%s %s %s%s%s%s 0%o = %d %s", kind, path, acc, (flags & O_EXCL) ? "|EXCL" : "", (flags & O_TRUNC) ? "|TRUNC" : "",
+    logf_(n, "%s %s %s%s%s%s 0%o = %d %s", kind, E(path), acc, (flags & O_EXCL) ? "|EXCL" : "", (flags & O_TRUNC) ? "|TRUNC" : "",
           (flags & O_DIRECTORY) ? "|DIR" : "", (flags & O_CREAT) || kind[4] == 't' ? mode : 0, r, ename(r < 0 ? se : 0));
     (void)name; errno = se; return r;
 }
@@ -193,7 +206,7 @@ int close(int fd) {
     long n; int e = pre("close", fdp(fd), &n);
     int r; if (e) { real_close(fd); r = -1; errno = e; } else r = real_close(fd);
     int se = errno;
-    logf_(n, "close %d<%s> = %d %s", fd, fdp(fd), r, ename(r < 0 ? se : 0));
+    logf_(n, "close %d<%s> = %d %s", fd, E(fdp(fd)), r, ename(r < 0 ? se : 0));
     fdtab_set(fd, NULL);
     errno = se; return r;
 }
@@ -221,16 +234,16 @@ int statx(int dirfd, const char *path_, int flags, unsigned int mask, struct sta
         st->stx_atime.tv_nsec = trunc_ns(st->stx_atime.tv_sec, st->stx_atime.tv_nsec, &s); st->stx_atime.tv_sec = s;
     }
     if (byfd) {
-        if (r == 0) logf_(n, "fstat %d<%s> = 0 - ino=%llu mode=0%o size=%llu mtime=%lld.%09u atime=%lld.%09u", dirfd, fdp(dirfd),
+        if (r == 0) logf_(n, "fstat %d<%s> = 0 - ino=%llu mode=0%o size=%llu mtime=%lld.%09u atime=%lld.%09u", dirfd, E(fdp(dirfd)),
                           (unsigned long long)st->stx_ino, st->stx_mode, (unsigned long long)st->stx_size,
                           (long long)st->stx_mtime.tv_sec, st->stx_mtime.tv_nsec, (long long)st->stx_atime.tv_sec, st->stx_atime.tv_nsec);
-        else logf_(n, "fstat %d<%s> = -1 %s", dirfd, fdp(dirfd), ename(se));
+        else logf_(n, "fstat %d<%s> = -1 %s", dirfd, E(fdp(dirfd)), ename(se));
     } else {
         const char *fl = (flags & AT_SYMLINK_NOFOLLOW) ? "NOFOLLOW" : "FOLLOW";
-        if (r == 0) logf_(n, "stat %s %s = 0 - ino=%llu mode=0%o size=%llu mtime=%lld.%09u atime=%lld.%09u", shown, fl,
+        if (r == 0) logf_(n, "stat %s %s = 0 - ino=%llu mode=0%o size=%llu mtime=%lld.%09u atime=%lld.%09u", E(shown), fl,
                           (unsigned long long)st->stx_ino, st->stx_mode, (unsigned long long)st->stx_size,
                           (long long)st->stx_mtime.tv_sec, st->stx_mtime.tv_nsec, (long long)st->stx_atime.tv_sec, st->stx_atime.tv_nsec);
-        else logf_(n, "stat %s %s = -1 %s", shown, fl, ename(se));
+        else logf_(n, "stat %s %s = -1 %s", E(shown), fl, ename(se));
     }
     errno = se; return r;
 }
@@ -242,60 +255,60 @@ int statx(int dirfd, const char *path_, int flags, unsigned int mask, struct sta
         if (e) { r = -1; errno = e; } else r = real_##fname args; \
         int se = errno; logf_(n, fmt " = %d %s", __VA_ARGS__, r, ename(r < 0 ? se : 0)); errno = se; return r; }
 
-PATH1(mkdir, "mkdir", (const char *p, mode_t m), (p, m), p, "mkdir %s 0%o", p, m)
-PATH1(unlink, "unlink", (const char *p), (p), p, "unlink %s", p)
-PATH1(rmdir, "rmdir", (const char *p), (p), p, "rmdir %s", p)
-PATH1(chmod, "chmod", (const char *p, mode_t m), (p, m), p, "chmod %s 0%o", p, m)
-PATH1(truncate, "truncate", (const char *p, off_t l), (p, l), p, "truncate %s %ld", p, (long)l)
+PATH1(mkdir, "mkdir", (const char *p, mode_t m), (p, m), p, "mkdir %s 0%o", E(p), m)
+PATH1(unlink, "unlink", (const char *p), (p), p, "unlink %s", E(p))
+PATH1(rmdir, "rmdir", (const char *p), (p), p, "rmdir %s", E(p))
+PATH1(chmod, "chmod", (const char *p, mode_t m), (p, m), p, "chmod %s 0%o", E(p), m)
+PATH1(truncate, "truncate", (const char *p, off_t l), (p, l), p, "truncate %s %ld", E(p), (long)l)
 
 int unlinkat(int d, const char *p, int fl) {
     init(); REAL(unlinkat);
     if (in_shim || !under_root(p)) return real_unlinkat(d, p, fl);
     long n; int e = pre((fl & AT_REMOVEDIR) ? "rmdir" : "unlink", p, &n); int r;
     if (e) { r = -1; errno = e; } else r = real_unlinkat(d, p, fl);
-    int se = errno; logf_(n, "%s %s = %d %s", (fl & AT_REMOVEDIR) ? "rmdir" : "unlink", p, r, ename(r < 0 ? se : 0)); errno = se; return r;
+    int se = errno; logf_(n, "%s %s = %d %s", (fl & AT_REMOVEDIR) ? "rmdir" : "unlink", E(p), r, ename(r < 0 ? se : 0)); errno = se; return r;
 }
 int rename(const char *a, const char *b) {
     init(); REAL(rename);
     if (in_shim || !(under_root(a) || under_root(b))) return real_rename(a, b);
     long n; int e = pre("rename", b, &n); int r;
     if (e) { r = -1; errno = e; } else r = real_rename(a, b);
-    int se = errno; logf_(n, "rename %s %s = %d %s", a, b, r, ename(r < 0 ? se : 0)); errno = se; return r;
+    int se = errno; logf_(n, "rename %s %s = %d %s", E(a), E(b), r, ename(r < 0 ? se : 0)); errno = se; return r;
 }
 int renameat(int d1, const char *a, int d2, const char *b) {
     init(); REAL(renameat);
     if (in_shim || !(under_root(a) || under_root(b))) return real_renameat(d1, a, d2, b);
     long n; int e = pre("rename", b, &n); int r;
     if (e) { r = -1; errno = e; } else r = real_renameat(d1, a, d2, b);
-    int se = errno; logf_(n, "rename %s %s = %d %s", a, b, r, ename(r < 0 ? se : 0)); errno = se; return r;
+    int se = errno; logf_(n, "rename %s %s = %d %s", E(a), E(b), r, ename(r < 0 ? se : 0)); errno = se; return r;
 }
 int link(const char *a, const char *b) {
     init(); REAL(link);
     if (in_shim || !(under_root(a) || under_root(b))) return real_link(a, b);
     long n; int e = pre("link", b, &n); int r;
     if (e) { r = -1; errno = e; } else r = real_link(a, b);
-    int se = errno; logf_(n, "link %s %s = %d %s", a, b, r, ename(r < 0 ? se : 0)); errno = se; return r;
+    int se = errno; logf_(n, "link %s %s = %d %s", E(a), E(b), r, ename(r < 0 ? se : 0)); errno = se; return r;
 }
 int linkat(int d1, const char *a, int d2, const char *b, int fl) {
     init(); REAL(linkat);
     if (in_shim || !(under_root(a) || under_root(b))) return real_linkat(d1, a, d2, b, fl);
     long n; int e = pre("link", b, &n); int r;
     if (e) { r = -1; errno = e; } else r = real_linkat(d1, a, d2, b, fl);
-    int se = errno; logf_(n, "link %s %s = %d %s", a, b, r, ename(r < 0 ? se : 0)); errno = se; return r;
+    int se = errno; logf_(n, "link %s %s = %d %s", E(a), E(b), r, ename(r < 0 ? se : 0)); errno = se; return r;
 }
 int fchmod(int fd, mode_t m) {
     init(); REAL(fchmod);
     if (in_shim || !fd_tracked(fd)) return real_fchmod(fd, m);
     long n; int e = pre("fchmod", fdp(fd), &n); int r;
     if (e) { r = -1; errno = e; } else r = real_fchmod(fd, m);
-    int se = errno; logf_(n, "fchmod %d<%s> 0%o = %d %s", fd, fdp(fd), m, r, ename(r < 0 ? se : 0)); errno = se; return r;
+    int se = errno; logf_(n, "fchmod %d<%s> 0%o = %d %s", fd, E(fdp(fd)), m, r, ename(r < 0 ? se : 0)); errno = se; return r;
 }
 int fchmodat(int d, const char *p, mode_t m, int fl) {
     init(); REAL(fchmodat);
     if (in_shim || !under_root(p)) return real_fchmodat(d, p, m, fl);
     long n; int e = pre("chmod", p, &n); int r;
     if (e) { r = -1; errno = e; } else r = real_fchmodat(d, p, m, fl);
-    int se = errno; logf_(n, "chmod %s 0%o = %d %s", p, m, r, ename(r < 0 ? se : 0)); errno = se; return r;
+    int se = errno; logf_(n, "chmod %s 0%o = %d %s", E(p), m, r, ename(r < 0 ? se : 0)); errno = se; return r;
 }
 
 static void fmt_ts(char *b, size_t n, const struct timespec *t) {
@@ -317,7 +330,7 @@ int futimens(int fd, const struct timespec ts[2]) {
     if (ts) { t2[0] = ts[0]; t2[1] = ts[1]; gran_ts(&t2[0]); gran_ts(&t2[1]); use = t2; }
     if (e) { r = -1; errno = e; } else r = real_futimens(fd, use);
     int se = errno; char a[48], m[48]; fmt_ts(a, sizeof a, ts ? &ts[0] : NULL); fmt_ts(m, sizeof m, ts ? &ts[1] : NULL);
-    logf_(n, "futimens %d<%s> atime=%s mtime=%s = %d %s", fd, fdp(fd), a, m, r, ename(r < 0 ? se : 0)); errno = se; return r;
+    logf_(n, "futimens %d<%s> atime=%s mtime=%s = %d %s", fd, E(fdp(fd)), a, m, r, ename(r < 0 ? se : 0)); errno = se; return r;
 }
 int utimensat(int d, const char *p, const struct timespec ts[2], int fl) {
     init(); REAL(utimensat);
@@ -327,8 +340,8 @@ int utimensat(int d, const char *p, const struct timespec ts[2], int fl) {
     if (ts) { t2[0] = ts[0]; t2[1] = ts[1]; gran_ts(&t2[0]); gran_ts(&t2[1]); use = t2; }
     if (e) { r = -1; errno = e; } else r = real_utimensat(d, p, use, fl);
     int se = errno; char a[48], m[48]; fmt_ts(a, sizeof a, ts ? &ts[0] : NULL); fmt_ts(m, sizeof m, ts ? &ts[1] : NULL);
-    if (p) logf_(n, "utimens %s atime=%s mtime=%s = %d %s", p, a, m, r, ename(r < 0 ? se : 0));
-    else logf_(n, "futimens %d<%s> atime=%s mtime=%s = %d %s", d, fdp(d), a, m, r, ename(r < 0 ? se : 0));
+    if (p) logf_(n, "utimens %s atime=%s mtime=%s = %d %s", E(p), a, m, r, ename(r < 0 ? se : 0));
+    else logf_(n, "futimens %d<%s> atime=%s mtime=%s = %d %s", d, E(fdp(d)), a, m, r, ename(r < 0 ? se : 0));
     errno = se; return r;
 }
 
@@ -338,11 +351,11 @@ int utimensat(int d, const char *p, const struct timespec ts[2], int fl) {
         long n; int e = pre(#fname, fdp(fdvar), &n); int r; \
         if (e) { r = -1; errno = e; } else r = real_##fname args; \
         int se = errno; logf_(n, fmt " = %d %s", __VA_ARGS__, r, ename(r < 0 ? se : 0)); errno = se; return r; }
-FD1(fsync, (int fd), (fd), fd, "fsync %d<%s>", fd, fdp(fd))
-FD1(fdatasync, (int fd), (fd), fd, "fdatasync %d<%s>", fd, fdp(fd))
-FD1(ftruncate, (int fd, off_t l), (fd, l), fd, "ftruncate %d<%s> %ld", fd, fdp(fd), (long)l)
-FD1(ftruncate64, (int fd, off64_t l), (fd, l), fd, "ftruncate %d<%s> %ld", fd, fdp(fd), (long)l)
-FD1(flock, (int fd, int op), (fd, op), fd, "flock %d<%s> %d", fd, fdp(fd), op)
+FD1(fsync, (int fd), (fd), fd, "fsync %d<%s>", fd, E(fdp(fd)))
+FD1(fdatasync, (int fd), (fd), fd, "fdatasync %d<%s>", fd, E(fdp(fd)))
+FD1(ftruncate, (int fd, off_t l), (fd, l), fd, "ftruncate %d<%s> %ld", fd, E(fdp(fd)), (long)l)
+FD1(ftruncate64, (int fd, off64_t l), (fd, l), fd, "ftruncate %d<%s> %ld", fd, E(fdp(fd)), (long)l)
+FD1(flock, (int fd, int op), (fd, op), fd, "flock %d<%s> %d", fd, E(fdp(fd)), op)
 
 int fcntl(int fd, int cmd, ...) {
     init();
@@ -356,7 +369,7 @@ int fcntl(int fd, int cmd, ...) {
     }
     long n; pre("fcntl-lock", fdp(fd), &n);
     int r = rf(fd, cmd, arg); int se = errno;
-    logf_(n, "fcntl-lock %d<%s> %d = %d %s", fd, fdp(fd), cmd, r, ename(r < 0 ? se : 0)); errno = se; return r;
+    logf_(n, "fcntl-lock %d<%s> %d = %d %s", fd, E(fdp(fd)), cmd, r, ename(r < 0 ? se : 0)); errno = se; return r;
 }
 int fcntl64(int fd, int cmd, ...) {
     va_list a; va_start(a, cmd); void *arg = va_arg(a, void *); va_end(a);
@@ -366,7 +379,7 @@ int lockf(int fd, int cmd, off_t len) {
     init(); REAL(lockf);
     if (in_shim || !fd_tracked(fd)) return real_lockf(fd, cmd, len);
     long n; pre("lockf", fdp(fd), &n); int r = real_lockf(fd, cmd, len); int se = errno;
-    logf_(n, "lockf %d<%s> %d = %d %s", fd, fdp(fd), cmd, r, ename(r < 0 ? se : 0)); errno = se; return r;
+    logf_(n, "lockf %d<%s> %d = %d %s", fd, E(fdp(fd)), cmd, r, ename(r < 0 ? se : 0)); errno = se; return r;
 }
 
 /* ---- data ---- */
@@ -375,35 +388,35 @@ ssize_t read(int fd, void *buf, size_t cnt) {
     if (in_shim || !fd_tracked(fd)) return real_read(fd, buf, cnt);
     long n; int e = pre("read", fdp(fd), &n); ssize_t r;
     if (e) { r = -1; errno = e; } else r = real_read(fd, buf, cnt);
-    int se = errno; logf_(n, "read %d<%s> %zu = %zd %s", fd, fdp(fd), cnt, r, ename(r < 0 ? se : 0)); errno = se; return r;
+    int se = errno; logf_(n, "read %d<%s> %zu = %zd %s", fd, E(fdp(fd)), cnt, r, ename(r < 0 ? se : 0)); errno = se; return r;
 }
 ssize_t write(int fd, const void *buf, size_t cnt) {
     init(); REAL(write);
     if (in_shim || !fd_tracked(fd)) return real_write(fd, buf, cnt);
     long n; int e = pre("write", fdp(fd), &n); ssize_t r;
     if (e) { r = -1; errno = e; } else r = real_write(fd, buf, cnt);
-    int se = errno; logf_(n, "write %d<%s> %zu = %zd %s", fd, fdp(fd), cnt, r, ename(r < 0 ? se : 0)); errno = se; return r;
+    int se = errno; logf_(n, "write %d<%s> %zu = %zd %s", fd, E(fdp(fd)), cnt, r, ename(r < 0 ? se : 0)); errno = se; return r;
 }
 off_t lseek(int fd, off_t off, int wh) {
     init(); REAL(lseek);
     if (in_shim || !fd_tracked(fd)) return real_lseek(fd, off, wh);
     long n; int e = pre("lseek", fdp(fd), &n); off_t r;
     if (e) { r = -1; errno = e; } else r = real_lseek(fd, off, wh);
-    int se = errno; logf_(n, "lseek %d<%s> %ld %d = %ld %s", fd, fdp(fd), (long)off, wh, (long)r, ename(r < 0 ? se : 0)); errno = se; return r;
+    int se = errno; logf_(n, "lseek %d<%s> %ld %d = %ld %s", fd, E(fdp(fd)), (long)off, wh, (long)r, ename(r < 0 ? se : 0)); errno = se; return r;
 }
 off64_t lseek64(int fd, off64_t off, int wh) {
     init(); REAL(lseek64);
     if (in_shim || !fd_tracked(fd)) return real_lseek64(fd, off, wh);
     long n; int e = pre("lseek", fdp(fd), &n); off64_t r;
     if (e) { r = -1; errno = e; } else r = real_lseek64(fd, off, wh);
-    int se = errno; logf_(n, "lseek %d<%s> %ld %d = %ld %s", fd, fdp(fd), (long)off, wh, (long)r, ename(r < 0 ? se : 0)); errno = se; return r;
+    int se = errno; logf_(n, "lseek %d<%s> %ld %d = %ld %s", fd, E(fdp(fd)), (long)off, wh, (long)r, ename(r < 0 ? se : 0)); errno = se; return r;
 }
 ssize_t copy_file_range(int fi, off64_t *oi, int fo, off64_t *oo, size_t len, unsigned fl) {
     init(); REAL(copy_file_range);
     if (in_shim || !(fd_tracked(fi) || fd_tracked(fo))) return real_copy_file_range(fi, oi, fo, oo, len, fl);
     long n; int e = pre("copy_file_range", fdp(fo), &n); ssize_t r;
     if (e) { r = -1; errno = e; } else r = real_copy_file_range(fi, oi, fo, oo, len, fl);
-    int se = errno; logf_(n, "copy_file_range %d<%s> %d<%s> %zu = %zd %s", fi, fdp(fi), fo, fdp(fo), len, r, ename(r < 0 ? se : 0)); errno = se; return r;
+    int se = errno; logf_(n, "copy_file_range %d<%s> %d<%s> %zu = %zd %s", fi, E(fdp(fi)), fo, E(fdp(fo)), len, r, ename(r < 0 ? se : 0)); errno = se; return r;
 }
 
 /* ---- directory streams ---- */
@@ -418,7 +431,7 @@ DIR *opendir(const char *p) {
     int se = errno;
     if (d) { pthread_mutex_lock(&mu); for (int i = 0; i < MAXDIR; i++) if (!dirs[i]) { dirs[i] = d; dirpaths[i] = strdup(p); break; } pthread_mutex_unlock(&mu);
              fdtab_set(dirfd(d), p); }
-    logf_(n, "opendir %s = %d %s", p, d ? dirfd(d) : -1, ename(d ? 0 : se)); errno = se; return d;
+    logf_(n, "opendir %s = %d %s", E(p), d ? dirfd(d) : -1, ename(d ? 0 : se)); errno = se; return d;
 }
 struct dirent64 *readdir64(DIR *d) {
     init(); REAL(readdir64);
@@ -427,7 +440,7 @@ struct dirent64 *readdir64(DIR *d) {
     in_shim++; errno = 0; struct dirent64 *r = real_readdir64(d); int se = errno; in_shim--;
     if (r && (strcmp(r->d_name, ".") == 0 || strcmp(r->d_name, "..") == 0)) { errno = se; return r; }
     pthread_mutex_lock(&mu); long n = ++seq; pthread_mutex_unlock(&mu);   /* not a gate/fault point: batched by the kernel */
-    logf_(n, "readdir %s = %s %s", p, r ? r->d_name : "<end>", ename(r ? 0 : se)); errno = se; return r;
+    logf_(n, "readdir %s = %s %s", E(p), r ? E(r->d_name) : "<end>", ename(r ? 0 : se)); errno = se; return r;
 }
 struct dirent *readdir(DIR *d) {
     init(); REAL(readdir);
@@ -436,7 +449,7 @@ struct dirent *readdir(DIR *d) {
     in_shim++; errno = 0; struct dirent *r = real_readdir(d); int se = errno; in_shim--;
     if (r && (strcmp(r->d_name, ".") == 0 || strcmp(r->d_name, "..") == 0)) { errno = se; return r; }
     pthread_mutex_lock(&mu); long n = ++seq; pthread_mutex_unlock(&mu);
-    logf_(n, "readdir %s = %s %s", p, r ? r->d_name : "<end>", ename(r ? 0 : se)); errno = se; return r;
+    logf_(n, "readdir %s = %s %s", E(p), r ? E(r->d_name) : "<end>", ename(r ? 0 : se)); errno = se; return r;
 }
 int closedir(DIR *d) {
     init(); REAL(closedir);
@@ -445,7 +458,7 @@ int closedir(DIR *d) {
     long n; int e = pre("closedir", p, &n); (void)e;
     int fd = dirfd(d);
     in_shim++; int r = real_closedir(d); int se = errno; in_shim--;
-    logf_(n, "closedir %s = %d %s", p, r, ename(r < 0 ? se : 0));
+    logf_(n, "closedir %s = %d %s", E(p), r, ename(r < 0 ? se : 0));
     pthread_mutex_lock(&mu); for (int i = 0; i < MAXDIR; i++) if (dirs[i] == d) { dirs[i] = NULL; free(dirpaths[i]); dirpaths[i] = NULL; } pthread_mutex_unlock(&mu);
     fdtab_set(fd, NULL);
     errno = se; return r;
